@@ -23,6 +23,8 @@ class Ty:
             return f'{self.args[0]!r}?'
         if self.kind in ('ref', 'enum'):
             return str(self.args[0])
+        if self.kind == 'list' and len(self.args) == 2:
+            return self.args[1]
         return f'{self.kind}[{",".join(map(repr, self.args))}]'
 
 
@@ -31,8 +33,8 @@ BOOL = Ty('bool')
 STR = Ty('str')
 NONE = Ty('none')
 FLOAT = Ty('float')
-BYTEARRAY = Ty('list', INT)       # mutable; elements range-checked at stores
-BYTES = Ty('seq', INT)            # immutable
+BYTEARRAY = Ty('list', INT, 'bytearray')       # mutable; elements range-checked at stores (ValueError)
+BYTES = Ty('list', INT, 'bytes')  # immutable byte string: a list object that the subset never mutates
 OPAQUE = Ty('opaque')             # values never inspected (line ids, match objects ...)
 
 
@@ -94,6 +96,8 @@ def sort_of(t):
         return z3.SeqSort(sort_of(t.args[0]))
     if k == 'mset':
         return z3.ArraySort(sort_of(t.args[0]), z3.BoolSort())
+    if k == 'arr':
+        return z3.ArraySort(z3.IntSort(), sort_of(t.args[0]))
     if k == 'map':
         return z3.ArraySort(sort_of(t.args[0]), sort_of(t.args[1]))
     if k == 'opt':
@@ -166,6 +170,8 @@ class TypeEnv:
                 return lst(args[0])
             if base == 'seq':
                 return seq(args[0])
+            if base == 'arr':
+                return Ty('arr', args[0])
             if base == 'set':
                 return sett(args[0])
             if base == 'mset':
